@@ -17,7 +17,7 @@
                          repaired_cfg: all); the theorems hold for every configuration. *)
 From Coq Require Import ZArith List Bool.
 From XV Require Import C07.Regex C04.Model C04.ProofsStr C04.ProofsGhost C04.ProofsPrint C04.ProofsParse
-  C04.ProofsRound C04.ProofsTree C04.ProofsLex C04.ProofsWit Gen.C04_current.
+  C04.ProofsRound C04.ProofsTree C04.ProofsLex C04.ProofsSyntax C04.ProofsWit Gen.C04_current.
 Import ListNotations.
 Local Open Scope Z_scope.
 
@@ -45,6 +45,23 @@ Theorem C04_roundtrip : forall c ir,
               print_names c ir' = print_names c ir.
 Proof. exact roundtrip. Qed.
 Print Assumptions C04_roundtrip.
+
+(* M3: the token stream of a well-formed tree over names parses back to that tree (generic operation
+   syntax: results, operands, successors, properties, regions with labelled / unlabelled entry block,
+   attribute dictionary, function type). *)
+Theorem C04_syntax_roundtrip : forall res args succs props regs attrs it ot,
+  let t := Op module_nm res args succs props regs attrs it ot in
+  wf_op t = true -> parse_toks (toks_op t) = Some t.
+Proof. exact parse_toks_ok. Qed.
+Print Assumptions C04_syntax_roundtrip.
+
+(* M1 and M3 together: the token stream of a module round-trips. *)
+Theorem C04_text_roundtrip : forall c res args succs props regs attrs it ot,
+  let ir : skel := Op module_nm res args succs props regs attrs it ot in
+  hints_ok c (sched ir) -> well_scoped c ir = true -> wf_skel ir = true ->
+  exists ir', parse_ir c (print_ir c ir) = Ok ir' /\ skel_iso c ir ir' /\ print_ir c ir' = print_ir c ir.
+Proof. exact text_roundtrip. Qed.
+Print Assumptions C04_text_roundtrip.
 
 (* For the repaired configuration the hint hypothesis is "the hints are hints the API stores". *)
 Theorem C04_roundtrip_repaired : forall ir,
